@@ -22,6 +22,12 @@ def main():
     # exhaustive layouts, then deeper ones by random walks (5..8 items over two chromosomes, fan-out 2 => 3- and 4-level indexes)
     obs = run_batches(run, "C02", "MC_BigBed", cfgs, "Obs_BigBed", nt, desc, lambda beh, k0: make_cases(beh, "bb", sizes, run, extra=extra, k0=k0),
                       sims=[("MC_BigBed_deep.cfg", 3000 if run.thorough else 300)])
+    many = []
+    for k, (nch, bs) in enumerate([(300, 256), (40, 4)] + ([(700, 256)] if run.thorough else [])):
+        many.append({"kind": "bb", "chroms": [50] * nch, "names": "varlen", "items": [[c, c % 7, c % 7 + 1 + c % 3, 1] for c in range(1, nch + 1)],
+                     "vmap": "int", "allq": 0, "zq": 0, "mz": [], "msum": {"bases": 0, "sum": 0, "sumsq": 0, "min": 0, "max": 0, "int": 1}, "scale": 1, "asq": "bed3", "long": 0,
+                     "opts": {"ips": 2, "bs": bs, "zooms": [], "zmode": "manual", "compress": k % 2, "inmem": 1, "rt": "multi", "threads": 2, "pass": 1 + k % 2, "chan": 100, "sort": "all"}})
+    judge(run, "C02", "Obs_BigBed", many, nt, desc)   # many chromosomes (more than one block of the chromosome tree), names of very different lengths
     run.cov["rule"] = ("every start-sorted entry layout within the TLC bounds x (ips, zoom list); free options paired; every third case with a supplied "
                        "autoSql, every fourth with 0..20 extra UTF-8 columns; non-trivial = at least 2 entries; distinct by (items, ips, zooms)")
     run.sample({"items": obs[len(obs) // 3]["items"], "opts": obs[len(obs) // 3]["opts"], "read": obs[len(obs) // 3]["obs"].get("read")})
